@@ -9,8 +9,8 @@ EXPLANATION = (
     "RNG draw and no associated data flows into them; (R2) the Strobe transcript absorbs the measurement as its own "
     "`key` operation and epoch and threshold each as their own `ad` operation, so no operation mixes two "
     "variable-length inputs; (R3) the threshold reaches its operation through a full-width u32 encoding with no "
-    "narrowing cast; (R4) the share's evaluation point is drawn from the OS generator on every path and is the only random atom "
-    "in a share; (R5) both client APIs take key seed and tag from the same derived elements.  NOT decided: collision resistance of Strobe, distinctness of OS-random points.")
+    "narrowing cast; (R4) the share's evaluation point is drawn from the OS generator on every path, is the only random atom "
+    "in a share, and is not provably narrower than 16 random bytes (no constant sub-window fill, no narrowing cast); (R5) both client APIs take key seed and tag from the same derived elements.  NOT decided: collision resistance of Strobe, distinctness of OS-random points.")
 ASSUMPTIONS = ["Strobe operations are modelled as one-way accumulators (sv/models.py); Strobe's framing of "
                "separate operations is trusted", "rand::rngs::OsRng is the OS generator"]
 TRUSTED = []
@@ -134,11 +134,16 @@ def run(ctx):
         xv = Sv.args[1 + fidx(ctx, "star_sharks::share_ff::Share", "x")] if Sv is not None and Sv.op == "agg" else None
         ctx.add("C04.R4", "share_with_local_randomness#share-point-random-on-every-path", xv is not None and always_random(xv),
                 "the share's evaluation point must be a random draw on every path (a fixed point makes agreeing clients emit identical shares); x = %s" % S(xv, 4), at)
+        from .common import narrow_random
+        nr = narrow_random(xv) if xv is not None else ["no evaluation point"]
+        ctx.add("C04.R4", "share_with_local_randomness#share-point-full-width", not nr,
+                "the evaluation point must be a full-width draw (>= 16 random bytes): independent clients must not collide on x; %s" % nr, at,
+                sample={"narrowing_found": nr})
         # R5: both client APIs derive tag and key the same way (a WASM client and a native client agree)
     ctx.floor("C04.R1", 5)
     ctx.floor("C04.R2", 3)
     ctx.floor("C04.R3", 1)
-    ctx.floor("C04.R4", 2)
+    ctx.floor("C04.R4", 3)
     sib_roles(ctx, "C04.R5")
     ctx.floor("C04.R5", 1)
 
